@@ -174,6 +174,34 @@ func newParser(first gopacket.LayerType, kind int, dls []gopacket.DecodingLayer)
 	return p
 }
 
+// plan is a construction plan exported by ParserBuildGen.tla: SetDecodingLayerContainer(empty container),
+// AddDecodingLayer in `Order`, one DecodeLayers call after the first `Cut` of them and one at the end.
+type plan struct {
+	Order []int `json:"order"`
+	Cut   int   `json:"cut"`
+}
+
+// addParser builds a parser the way doc.go shows: an empty container of the given kind is installed, then
+// the layers are added one by one with AddDecodingLayer.
+func addParser(first gopacket.LayerType, kind int, dls []gopacket.DecodingLayer) *gopacket.DecodingLayerParser {
+	p := gopacket.NewDecodingLayerParser(first)
+	p.SetDecodingLayerContainer(newContainer(kind))
+	for _, d := range dls {
+		p.AddDecodingLayer(d)
+	}
+	return p
+}
+
+// lateParser builds a parser over the first part of the layers; for the map container (the parser's
+// default) they are handed to NewDecodingLayerParser itself, the other containers are installed empty and
+// filled with AddDecodingLayer.  The caller decodes, then adds the rest with AddDecodingLayer.
+func lateParser(first gopacket.LayerType, kind int, early []gopacket.DecodingLayer) *gopacket.DecodingLayerParser {
+	if kind == 0 {
+		return gopacket.NewDecodingLayerParser(first, early...)
+	}
+	return addParser(first, kind, early)
+}
+
 // errKind classifies the error returned by DecodeLayers: none | unsup (+ type) | error
 func errKind(err error) (string, gopacket.LayerType, string) {
 	if err == nil {
